@@ -1,5 +1,6 @@
 """C19 - device waiters are woken by advertisements; advertisement parsing is robust (DESIGN 4/C19)."""
 import asyncio
+import contextvars
 import ipaddress
 import socket
 import struct
@@ -86,7 +87,7 @@ class MdnsWorld:
         c._async_handle_loaded_service_info = logged
         return c
 
-    def announce(self, rec, hap_type=HAP):
+    def announce(self, rec, hap_type=HAP, fire=True):
         """rec: dict(name, props{bytes:bytes}, addrs[list of str], port)"""
         packed = []
         for a in rec["addrs"]:
@@ -95,7 +96,7 @@ class MdnsWorld:
         name = f"{rec['name']}.{hap_type}"
         info = AsyncServiceInfo(hap_type, name, addresses=packed, port=rec.get("port", 1234), properties=rec["props"], server=f"{rec['name']}.local.")
         self.inner.cache.async_add_records([*info.dns_addresses(), info.dns_pointer(), info.dns_service(), info.dns_text()])
-        for h in list(self.browser._handlers):
+        for h in list(self.browser._handlers) if fire else []:
             try:
                 h(zeroconf=self.inner, service_type=hap_type, name=name, state_change=ServiceStateChange.Added)
             except Exception as e:  # noqa: BLE001
@@ -121,6 +122,43 @@ PD_IP = {"AccessoryPairingID": "AA:BB:CC:00:00:01", "AccessoryLTPK": "00" * 32, 
 
 # ---------------------------------------------------------------- waiter schedules (shared judge)
 CTL_KINDS = {"ip": ["ip"], "coap": ["coap"], "agg": ["ip", "coap"], "ble": ["ble"], "agg-ble": ["ip", "coap", "ble"]}
+
+
+_WAITER = contextvars.ContextVar("c19_waiter", default=None)      # which harness waiter a transport-level async_find belongs to (tasks inherit it)
+
+
+def spy_transport(transport, kind, log, loop):
+    """Record the outcome of every async_find of a transport the aggregate controller delegates to."""
+    orig = transport.async_find
+
+    async def async_find(device_id, timeout=30.0):
+        rec = {"kind": kind, "id": device_id.lower(), "start": loop.time(), "outcome": None, "end": None, "waiter": _WAITER.get()}
+        log.append(rec)
+        try:
+            d = await orig(device_id, timeout)
+            rec["outcome"] = "found"
+            return d
+        except AccessoryNotFoundError:
+            rec["outcome"] = "notfound"
+            raise
+        except asyncio.CancelledError:
+            rec["outcome"] = "cancelled"
+            raise
+        finally:
+            rec["end"] = loop.time()
+    transport.async_find = async_find
+
+
+def judge_aggregate(R, waiters, sublog, what):
+    """Whatever the timing: if one of the transports handed a discovery to the aggregate controller, the aggregate waiter must not end not-found."""
+    for w in waiters:
+        if not w["ctl"].startswith("agg") or not w["outcome"] or w["outcome"][0] != "notfound":
+            continue
+        subs = [x for x in sublog if x["waiter"] == w["n"] and x["outcome"] == "found"]
+        if subs:
+            R.fail("C19.aggregate-drops-discovery", f"{what}: the {subs[0]['kind']} transport found {w['id']} at t={subs[0]['end']}, the aggregate waiter registered at "
+                                                    f"{w['start']} ended not-found at t={w['end']}", ctl=w["ctl"])
+            return
 
 
 def judge_waiters(R, waiters, processed_at, what, tolerance=EPS):
@@ -178,10 +216,11 @@ async def run_schedule(loop, R, case, make_world):
             def fire(ev=ev):
                 if ev[1] == "wait":
                     _, _, ctl, id_, timeout, cancel_after = ev[:6]
-                    rec = {"ctl": ctl, "id": id_, "start": loop.time(), "timeout": timeout, "cancel_at": None, "end": None, "outcome": None}
+                    rec = {"ctl": ctl, "id": id_, "start": loop.time(), "timeout": timeout, "cancel_at": None, "end": None, "outcome": None, "n": len(waiters)}
                     waiters.append(rec)
 
                     async def waiter():
+                        _WAITER.set(rec["n"])
                         try:
                             d = await world.find(ctl, id_, timeout)
                             rec["outcome"] = ("found", getattr(d.description, "id", None))
@@ -218,6 +257,8 @@ async def run_schedule(loop, R, case, make_world):
                 R.fail("C19.waiter-outcome", f"{what}: waiter raised {w['outcome'][1]}", ctl=w["ctl"], got="error", want="-")
                 return
         judge_waiters(R, waiters, world.processed_valid(), what)
+        if not R.failures:
+            judge_aggregate(R, waiters, getattr(world, "sublog", []), what)
         lag = world.processing_lag()
         if lag is not None and lag > 1 + EPS:
             R.fail("C19.processing-late", f"{what}: an advertisement was processed {lag:.2f}s after it was announced")
@@ -233,16 +274,29 @@ class MdnsScheduleWorld:
         self.pairing = pairing
         self.announced = []
         self.byes = []
+        self.prestart = []
 
     async def start(self):
         cache = CharacteristicCacheMemory()
         self.ip = self.m.make("ip", cache)
         self.coap = self.m.make("coap")
+        self.sublog = []
+        # records that are in the DNS cache before the controllers start (e.g. the host application's zeroconf instance has been running)
+        for item in self.prestart:
+            if item[0] == "bad-ptr":
+                from zeroconf import DNSPointer
+                from zeroconf.const import _CLASS_IN, _TYPE_PTR
+                for hap_type, alias in ((HAP, "Thermostat." + HAP_UDP), (HAP, "odd name without type."), (HAP_UDP, "Lamp." + HAP)):
+                    self.m.inner.cache.async_add_records([DNSPointer(hap_type, _TYPE_PTR, _CLASS_IN, 4500, alias)])
+            else:
+                self.advertise([0.0, "adv", item[1], item[2], 0], fire=False)
         await self.ip.async_start()
         await self.coap.async_start()
         self.agg = Controller(async_zeroconf_instance=self.m.zc, char_cache=cache)
         self.agg.transports[TransportType.IP] = self.ip
         self.agg.transports[TransportType.COAP] = self.coap
+        spy_transport(self.ip, "ip", self.sublog, self.loop)
+        spy_transport(self.coap, "coap", self.sublog, self.loop)
         if self.pairing != "none":
             if self.pairing == "cached":
                 cache.async_create_or_update_map("AA:BB:CC:00:00:01", 1, BLE_DB, None, None)
@@ -252,14 +306,16 @@ class MdnsScheduleWorld:
         c = {"ip": self.ip, "coap": self.coap, "agg": self.agg}[ctl]
         return await c.async_find(id_, timeout)
 
-    def advertise(self, ev):
+    def advertise(self, ev, fire=True):
         _, _, idx, variant, _order = ev[:5]
         id_ = IDS[idx % 2]
         idv = id_.upper() if variant & 1 else id_
-        rec = {"name": f"acc{idx % 2}", "props": txt(idv, upper=bool(variant & 2), c=1 + (variant >> 2) % 3), "addrs": ["169.254.1.1", "10.0.0.9", "fd00::2"][(variant >> 4) % 2:]}
+        # (variant & 128: the same accessory id under a second service name - its resolve timer is a separate one)
+        rec = {"name": f"acc{idx % 2}" + ("b" if variant & 128 else ""), "props": txt(idv, upper=bool(variant & 2), c=1 + (variant >> 2) % 3),
+               "addrs": ["169.254.1.1", "10.0.0.9", "fd00::2"][(variant >> 4) % 2:]}
         hap_type = HAP_UDP if variant & 64 else HAP
         self.announced.append((self.loop.time(), id_, hap_type))
-        self.m.announce(rec, hap_type)
+        self.m.announce(rec, hap_type, fire=fire)
 
     def goodbye(self, ev):
         """The browser reports the service as removed (goodbye packet); a pending resolve of that name is dropped."""
@@ -322,7 +378,9 @@ def run_mdns_schedule(case, R):
 
     async def main(loop):
         def mk(lp):
-            return MdnsScheduleWorld(lp, case.get("pairing", "none"))
+            w = MdnsScheduleWorld(lp, case.get("pairing", "none"))
+            w.prestart = case.get("prestart", [])
+            return w
         await run_schedule(loop, R, case, mk)
     vtime.run(main)
 
@@ -344,6 +402,9 @@ class BleScheduleWorld:
         self.agg = Controller(async_zeroconf_instance=self.m.zc, char_cache=cache)
         self.agg.transports[TransportType.IP] = self.ip
         self.agg.transports[TransportType.BLE] = self.ble
+        self.sublog = []
+        spy_transport(self.ip, "ip", self.sublog, self.loop)
+        spy_transport(self.ble, "ble", self.sublog, self.loop)
         if self.pairing != "none":
             if self.pairing == "cached":
                 cache.async_create_or_update_map("AA:BB:CC:00:00:01", 1, BLE_DB, None, 7)
@@ -425,17 +486,33 @@ def schedules(draw, ctls, adv_lead=0.5):
             t = max(0.0, w[0] + w[4] - adv_lead + draw(st.sampled_from([0.0, 0.0, -0.25, 0.25])))
         else:
             t = draw(TIMES)
-        events.append([t, "adv", draw(st.integers(0, 1)), draw(st.integers(0, 127)), draw(st.integers(0, 1))])
+        events.append([t, "adv", draw(st.integers(0, 1)), draw(st.integers(0, 255)), draw(st.integers(0, 1))])
+        if draw(st.integers(0, 3)) == 0:        # the same id under the other service name at the same instant: two records processed back to back
+            events.append([t, "adv", events[-1][2], events[-1][3] ^ 128, 1])
     if "ble" not in ctls and draw(st.integers(0, 2)) == 0:
         # goodbye packets (an accessory rebooting): close to an announcement, so that some land inside the 0.5 s resolve delay
         for e in [e for e in events if e[1] == "adv"][:2]:
             events.append([max(0.0, e[0] + draw(st.sampled_from([-0.25, 0.0, 0.25, 0.25, 0.75]))), "bye", e[2], e[3] & 64])
             if draw(st.booleans()):
                 events.append([e[0] + draw(st.sampled_from([0.3, 0.6, 1.0, 2.0])), "adv", e[2], e[3], 0])
-    return {"events": events, "pairing": draw(st.sampled_from(["none", "none", "cached", "uncached"]))}
+    case = {"events": events, "pairing": draw(st.sampled_from(["none", "none", "cached", "uncached"]))}
+    if "ble" not in ctls and draw(st.integers(0, 3)) == 0:
+        pre = [["adv", draw(st.integers(0, 1)), draw(st.integers(0, 255))] for _ in range(draw(st.integers(1, 2)))]
+        pre.insert(draw(st.integers(0, len(pre))), ["bad-ptr"])
+        case["prestart"] = pre
+    return case
 
 
 def enum_schedules(tier):
+    for pairing in ("none", "cached", "uncached"):
+        for ctl in ("ip", "coap", "agg"):
+            hap = 64 if ctl == "coap" else 0
+            # two records for the same id processed in the same loop iteration (two service names), repeatedly
+            yield {"pairing": pairing, "events": [[0.0, "wait", ctl, IDS[0], 10, None], [1.0, "adv", 0, hap, 0], [1.0, "adv", 0, hap | 128, 1], [3.0, "adv", 0, hap | 128, 0], [3.0, "adv", 0, hap, 1],
+                                                  [6.0, "wait", ctl, IDS[0], 2, None]]}
+            # the cache already holds records when the controller starts: a PTR with a malformed alias in front of / behind valid ones
+            for pre in ([["bad-ptr"], ["adv", 0, hap], ["adv", 1, hap]], [["adv", 0, hap], ["bad-ptr"], ["adv", 1, hap]]):
+                yield {"pairing": pairing, "prestart": pre, "events": [[0.5, "wait", ctl, IDS[0], 3, None], [0.5, "wait", ctl, IDS[1], 3, None]]}
     for pairing in ("none", "cached", "uncached"):
         for ctl in ("ip", "coap", "agg"):
             hap = 64 if ctl == "coap" else 0
